@@ -350,7 +350,11 @@ class Check:
             if k.get("status", "known") == "known" and k.get("key") == key and k.get("rule", rule) == rule:
                 self.known_hit.append((k, where, text))
                 return
-        self.violations.append((key, rule, where, text, extra or {}))
+        for v in self.violations:
+            if v[0] == key and v[1] == rule:
+                v[4]["instances"] = v[4].get("instances", 1) + 1
+                return
+        self.violations.append((key, rule, where, text, dict(extra or {})))
 
     def floor(self, rule, found, floor):
         self.floors[rule] = (found, floor)
